@@ -118,7 +118,16 @@ func PubKeyToAddr(addressID int32, pubKey []byte) string {
 // blockHeight is used for enable check, pass -1 if there is no block height context
 func CheckAddress(addr string, blockHeight int64) (e error) {
 
-	if value, ok := checkAddressCache.Get(addr); ok {
+	// the result depends on the address and on which drivers are enabled at blockHeight,
+	// so both are part of the cache key (driver ids are in [0, MaxID])
+	var enabled byte
+	for id, d := range drivers {
+		if isEnable(blockHeight, d.enableHeight) {
+			enabled |= 1 << uint(id)
+		}
+	}
+	cacheKey := string([]byte{enabled}) + addr
+	if value, ok := checkAddressCache.Get(cacheKey); ok {
 		if value != nil {
 			return value.(error)
 		}
@@ -133,7 +142,7 @@ func CheckAddress(addr string, blockHeight int64) (e error) {
 			break
 		}
 	}
-	checkAddressCache.Add(addr, e)
+	checkAddressCache.Add(cacheKey, e)
 	return e
 }
 
